@@ -980,9 +980,32 @@ def rule_P_SKELETON(ctx, floor=30):
         raise AnchorMissing("checks/tables/parser_skeletons.json")
     got = extract_all(ctx.facts)
     ctx.floor("enum-parser functions with a consumption skeleton", len(got), floor)
+    # a reviewed function that is gone (merged into a new helper, inlined into its caller) is inlined into the REFERENCES of its callers:
+    # an argument-less `call <removed>` in a reviewed production stands for the removed function's own reviewed production
+    gone = {}
+    for name in set(ref) - set(got):
+        short = name.rsplit("::", 1)[-1]
+        if short not in EMPTY:
+            gone[short] = None if short in gone else ref[name]["skeleton"]
+    gone = {k: v for k, v in gone.items() if v is not None}
+
+    def expand_removed(node, depth=0):
+        if not isinstance(node, list) or depth > 40:
+            return node
+        if node and isinstance(node[0], str):
+            return [node[0]] + [expand_removed(x, depth + 1) for x in node[1:]]
+        out = []
+        for x in node:
+            if isinstance(x, list) and len(x) == 2 and x[0] == "call" and x[1] in gone:
+                out.extend(expand_removed(gone[x[1]], depth + 1))
+            else:
+                out.append(expand_removed(x, depth + 1))
+        return out
     for name, (s, it) in sorted(got.items()):
         ctx.fn(it)
         r = ref.get(name)
+        if r is not None and gone:
+            r = {"skeleton": expand_removed(r["skeleton"])}
         site = "%s:%s" % (it["span"]["file"], it["span"]["line"])
         if r is None:
             # a function added next to the reviewed ones is not evidence against the property (control: a new unrelated API); it is listed
